@@ -6,9 +6,9 @@ From SA.Hs Require Import Parse Machine Grammar Parse_proofs Machine_proofs Gram
 Import ListNotations.
 Open Scope N_scope.
 
-Definition plain := mkcfg false false.
-Definition with_cert := mkcfg false true.
-Definition secure_carrier := mkcfg true true.
+Definition plain := mkcfg false false false.
+Definition with_cert := mkcfg false true false.
+Definition secure_carrier := mkcfg true true false.
 
 (* the server admits what the client writes, whatever follows is handed on *)
 Example server_admits_client :
@@ -38,6 +38,16 @@ Proof. vm_compute. reflexivity. Qed.
 Example server_starttls_no_cert :
   server_run plain [announce_request; upgrade_request protocol_version true] =
   Ok (mksobs [200; 503] (Refused false)).
+Proof. vm_compute. reflexivity. Qed.
+
+(* a server that requires client certificates: StartTLS or nothing on an unencrypted carrier *)
+Definition with_cert_reqcc := mkcfg false true true.
+Example server_reqcc_plain_refused :
+  server_run with_cert_reqcc [announce_request; upgrade_request protocol_version false] = Ok (mksobs [200; 403] (Refused false)).
+Proof. vm_compute. reflexivity. Qed.
+Example server_reqcc_starttls_ok :
+  server_run_with true with_cert_reqcc [announce_request; upgrade_request protocol_version true] =
+  Ok (mksobs [200; 101] (Established protocol_version true TechTls [])).
 Proof. vm_compute. reflexivity. Qed.
 
 (* refusals *)
